@@ -687,6 +687,17 @@ pub fn oracle_c10(toks: &[&str]) -> String {
             s.push('\n');
             s.into_bytes()
         }
+        // comment lines only (before any header): the look-ahead must not accumulate over consecutive comments
+        "cnfc" => {
+            let mut s = String::from("c ");
+            while s.len() + 1 < item_len { s.push('x'); }
+            s.push('\n');
+            s.into_bytes()
+        }
+        // direct use of the reader: mark set once, then request/advance through the stream
+        "rdr" => vec![b'x'; item_len.max(1)],
+        // a line whose declared count is far larger than the line: memory must follow the bytes, not the count
+        "btor2j" => b"7 justice 16777216 2 3\n".to_vec(),
         other => panic!("o_c10: parser {other}"),
     };
     let total = line.len() * lines;
@@ -701,6 +712,27 @@ pub fn oracle_c10(toks: &[&str]) -> String {
             "cnf" => {
                 let mut p = flussab_cnf::cnf::Parser::<i64>::new(r.into(), flussab_cnf::cnf::Config::default()).map_err(|e| show_err_cnf(&e))?;
                 while let Some(_c) = p.next_clause().map_err(|e| show_err_cnf(&e))? { items += 1; }
+            }
+            "cnfc" => {
+                let mut p = flussab_cnf::cnf::Parser::<i64>::new(r.into(), flussab_cnf::cnf::Config::default()).map_err(|e| show_err_cnf(&e))?;
+                while let Some(_c) = p.next_clause().map_err(|e| show_err_cnf(&e))? { items += 1; }
+                items = lines;   // no items are expected; the comment lines are the "lines"
+            }
+            "rdr" => {
+                r.set_mark();
+                loop {
+                    let n = r.request(line.len()).len();
+                    if n == 0 { break; }
+                    r.advance(n.min(line.len()));
+                    items += 1;
+                }
+                items = lines;
+            }
+            "btor2j" => {
+                let mut p = flussab_btor2::Parser::new(r.into(), flussab_btor2::Config::default()).map_err(|e| show_err_btor2(&e))?;
+                // the line is ill-formed (fewer ids than declared): an error is the expected outcome
+                loop { match p.next_line() { Ok(Some(_)) => {}, Ok(None) => break, Err(_) => break } }
+                items = lines;
             }
             _ => {
                 let mut p = flussab_btor2::Parser::new(r.into(), flussab_btor2::Config::default()).map_err(|e| show_err_btor2(&e))?;
